@@ -1,4 +1,5 @@
 (* C07 - No broken bindings: bound properties reject writes; reset / rebinding are clean. *)
+From KDB Require PropReg.
 From KDB Require Import Util PropDefs PropProofs PropFlags PropLink PropLinkTheorems.
 
 (* every direct write to a property that has a binding raises ReadOnlyProperty and the world is unchanged *)
@@ -65,3 +66,15 @@ Example C07_example :
       (filter (fun e => match e with EvVal _ => true | EvDone (Some _) => true | _ => false end) (w_trace (run fn true 5 ops)))
   = [Some 9%Z; Some 3%Z; None].
 Proof. vm_compute. reflexivity. Qed.
+
+(* the binding a reset() or a replacement disposes of is dead, and dead for ever: no later operation of any history brings it back
+   (coq/PropReg.v); with C07_only_live_bindings_are_subscribed no later write or notification can reach it *)
+Theorem C07_disposed_binding_dead_for_ever :
+  forall fn rtl fuel ops w b x,
+    PropDefs.get_bind w b = Some x ->
+    PropReg.bkey (fold_left (PropDefs.step fn rtl fuel) ops (fst (PropDefs.destroy_binding w b))) b = None.
+Proof.
+  intros fn rtl fuel ops w b x Hb. destruct (PropReg.destroy_binding_dead w b x Hb) as [Hk Hlt].
+  exact (PropReg.dead_stays_dead fn rtl fuel ops _ b Hlt Hk).
+Qed.
+Print Assumptions C07_disposed_binding_dead_for_ever.
